@@ -8,9 +8,11 @@ open Pangaea.Chain Pangaea.Drv
 def elemV (id : Int) : Val := .arr [.str "E", .int id]
 def accV (t : Int) : Val := .arr [.str "A", .int t]
 
+/-- the methods add up all their (up to three) arguments; a missing one counts 0 -/
 def argInt : List Val → Int
-  | .int a :: _ => a
-  | _ => 0
+  | [] => 0
+  | .int a :: rest => a + argInt rest
+  | _ :: rest => argInt rest
 
 def behaviour (tbl : List (Int × Char)) (id : Int) : Option Char := tbl.lookup id
 
@@ -88,7 +90,7 @@ def handle (args : List String) : String × String :=
       let tbl := es.filterMap (·.2)
       let it : Iter := { elems := es.map (·.1), stop := none }
       let recv : Val := (es.map (·.1)).headD .nil
-      let cargs : List Val := match arg.toInt? with | some i => [.int i] | none => []
+      let cargs : List Val := if arg = "-" then [] else (arg.splitOn "+").filterMap (fun t => t.toInt?.map Val.int)
       let model :=
         match m with
         | .reduce =>
